@@ -195,6 +195,11 @@ func genC10(g *gen) {
 							}
 							k++
 							g.asmJoinProgram("concat", via, axis, g.asmDtype(k), shs, lays, true)
+							if axis == 0 && rep == 0 {
+								// the constant AllAxes names the outermost axis: the same operands, other layouts
+								k++
+								g.asmJoinProgram("concat", via, -1, g.asmDtype(k), shs, g.asmRandLayouts(n), true)
+							}
 						}
 					}
 				}
